@@ -22,6 +22,17 @@ MPT_STRUCT(node)
 	node(metatype *ref = 0);
 	~node();
 	
+# if __cplusplus >= 201103L
+	/* member-wise copy would share links, children and data reference */
+	node(const node &) = delete;
+	node &operator=(const node &) = delete;
+# else
+    private:
+	node(const node &);
+	node &operator=(const node &);
+    public:
+# endif
+	
 	void set_metatype(metatype *mt);
 	struct node &operator=(const reference<metatype> &);
 	
